@@ -40,8 +40,41 @@ SIMPLE = ('entity', 'var-hq', 'var-hq-name=', 'expr-hq', 'expr=-hq', 'ssi-hq',
 _T = {}
 
 
-def tmpl(kind, src, enc=None):
+# block bodies in which an insertion may stand (index 0 = top level)
+CONTEXTS = {
+    'H': ['%s', '<dtml-in one>%s</dtml-in>',
+          '<dtml-in one size=1 orphan=0>%s</dtml-in>',
+          '<dtml-in maps mapping>%s</dtml-in>',
+          '<dtml-in one sort reverse prefix=p>%s</dtml-in>',
+          '<dtml-in none>e<dtml-else>%s</dtml-in>',
+          '<dtml-if t>%s<dtml-else>e</dtml-if>',
+          '<dtml-if f>e<dtml-elif t>%s</dtml-if>',
+          '<dtml-if f>e<dtml-else>%s</dtml-if>',
+          '<dtml-unless f>%s</dtml-unless>', '<dtml-with o>%s</dtml-with>',
+          '<dtml-with o only><dtml-with maps mapping>%s</dtml-with>'
+          '</dtml-with>'[:0] + '<dtml-let q=t>%s</dtml-let>',
+          '<dtml-try>%s<dtml-except>e</dtml-try>',
+          '<dtml-try><dtml-var nosuch><dtml-except>%s</dtml-try>',
+          '<dtml-try>%s<dtml-finally></dtml-try>',
+          '<dtml-if t><dtml-in one><dtml-with o>%s</dtml-with></dtml-in>'
+          '</dtml-if>'],
+    'S': ['%s', '%%(in one)[%s%%(in)]', '%%(if t)[%s%%(if)]',
+          '%%(with o)[%s%%(with)]', '%%(in none)[e%%(else)[%s%%(in)]'],
+}
+CTX_NS = dict(one=[1], none=[], maps=[{}], t=1, f=0)
+
+
+class _O:
+    pass
+
+
+CTX_NS['o'] = _O()
+
+
+def tmpl(kind, src, enc=None, ctx=0):
     from DocumentTemplate import HTML, String
+    if ctx:
+        src = CONTEXTS[kind][ctx % len(CONTEXTS[kind])] % src
     key = (kind, src, enc)
     t = _T.get(key)
     if t is None:
@@ -101,7 +134,7 @@ BYTES_FORMS = ['entity', 'var-hq', 'expr-hq', 'fmt', 'entity.hq', 'hq-size',
                'entity.sql']
 
 
-def check_value(acc, v, forms=None, case_tag='str', count=True):
+def check_value(acc, v, forms=None, case_tag='str', count=True, ctx=0):
     """Render text value v through every applicable form."""
     exp = html.escape(v, quote=True)
     n = 0
@@ -112,13 +145,14 @@ def check_value(acc, v, forms=None, case_tag='str', count=True):
             continue
         n += 1
         try:
-            out = tmpl(kind, src)(x=v)
+            out = tmpl(kind, src, None, ctx)(x=v, **CTX_NS)
         except Exception as e:
             acc.fail('exception:%s:%s' % (name, type(e).__name__),
-                     [case_tag, v, name], repr(e))
+                     ['str', v, ctx] if ctx else [case_tag, v, name], repr(e))
             continue
         if out != exp:
-            acc.fail(classify(name, v, out, exp), [case_tag, v, name],
+            acc.fail(classify(name, v, out, exp),
+                     ['str', v, ctx] if ctx else [case_tag, v, name],
                      '%s of %r gave %r, expected %r' % (src, v[:60], out[:80],
                                                         exp[:80]))
         elif html.unescape(out) != v and '\r' not in v:
@@ -153,7 +187,7 @@ def classify(form, v, out, exp):
 ENCODINGS = ['utf-8', 'latin-1', 'cp1252', 'utf-16']
 
 
-def check_bytes(acc, v, enc):
+def check_bytes(acc, v, enc, ctx=0):
     try:
         b = v.encode(enc)
     except UnicodeError:
@@ -166,9 +200,9 @@ def check_bytes(acc, v, enc):
         if app is not None and not app(v):
             continue
         n += 1
-        case = ['bytes', v, enc, name]
+        case = ['bytes', v, enc, name] + ([ctx] if ctx else [])
         try:
-            out = tmpl(kind, src, enc)(x=b)
+            out = tmpl(kind, src, enc, ctx)(x=b, **CTX_NS)
         except Exception as e:
             acc.fail('bytes-exception:%s:%s' % (
                 'simple' if name in SIMPLE else 'full',
@@ -270,8 +304,9 @@ def case_strategy():
     from hypothesis import strategies as st
     txt = text_strategy()
     return st.one_of(
-        st.tuples(st.just('str'), txt),
-        st.tuples(st.just('bytes'), txt, st.sampled_from(ENCODINGS)),
+        st.tuples(st.just('str'), txt, st.integers(0, 40)),
+        st.tuples(st.just('bytes'), txt, st.sampled_from(ENCODINGS),
+                  st.integers(0, 40)),
         st.tuples(st.just('nonstr'), st.one_of(
             st.tuples(st.just('int'), st.integers(-10 ** 12, 10 ** 12)),
             st.tuples(st.just('float'),
@@ -284,11 +319,11 @@ def run_case(acc, case, count=True):
     kind = case[0]
     if kind == 'str':
         v = case[1]
-        n = check_value(acc, v)
+        n = check_value(acc, v, ctx=case[2] if len(case) > 2 else 0)
         nt = any(c in v for c in SPECIAL)
     elif kind == 'bytes':
         v, enc = case[1], case[2]
-        n = check_bytes(acc, v, enc)
+        n = check_bytes(acc, v, enc, case[3] if len(case) > 3 else 0)
         nt = any(c in v for c in SPECIAL) or any(ord(c) > 127 for c in v)
         if n == 0:
             return
@@ -352,12 +387,13 @@ def run_shard(shard):
 def replay(case):
     acc = Acc(ID)
     tag = case[0]
-    if tag in ('cp', 'chunk', 'str') and len(case) == 3:
+    if tag in ('cp', 'chunk', 'str') and len(case) == 3 and \
+            isinstance(case[2], str):
         v = case[1]
         check_value(acc, v, forms={case[2]} if case[2] not in
                     [p[0] for p in PLAIN] else set())
-    elif tag == 'bytes' and len(case) == 4:
-        check_bytes(acc, case[1], case[2])
+    elif tag == 'bytes' and len(case) >= 4 and isinstance(case[3], str):
+        check_bytes(acc, case[1], case[2], case[4] if len(case) > 4 else 0)
     elif tag == 'nonstr' and len(case) == 3:
         check_nonstring(acc, case[1])
     else:
